@@ -1,6 +1,7 @@
 package main
 
 import (
+	"go/token"
 	"go/types"
 	"strings"
 
@@ -286,7 +287,7 @@ func init() {
 		Explanation: "Decides, for every input and schedule, the structural clause 'on the query result path no error is dropped and every error reaches the caller or the failure bookkeeping': errflow rules over the SSA form of every call site of a result producer, plus dominance rules for the success bookkeeping (cache succeed, NumSuccessfulPartitions) and the scan-continuation rule (a scan never ends by itself with a nil error).",
 		NotDecided:  []string{"whether deadlines/timeouts fire at the right time", "gRPC transport failures below the stream API", "os.IsNotExist on the data file being served as 'no file yet' (reading note)"},
 		Assumptions: []string{"go/ssa models the control flow of the compiled program", "wrapper functions (fmt.Errorf, golog Errorf, errors.New) return a non-nil error carrying their argument"},
-		Rules:       []func(*Ctx){ruleC13a, ruleC13w},
+		Rules:       []func(*Ctx){ruleC13a, ruleC13w, ruleC13b},
 	})
 }
 
@@ -303,4 +304,217 @@ func debugCallees(P *Prog, call ssa.CallInstruction) []string {
 		}
 	}
 	return out
+}
+
+// ruleC13b: success bookkeeping is dominated by the failure tests.
+func ruleC13b(c *Ctx) {
+	const rule = "C13.b"
+	c.describe(rule, "dom: cache 'succeed' only after every earlier error was tested nil and the size cap was tested; NumSuccessfulPartitions++ only under result.err == nil; a failed partition result and every partition pending at timeout reach the missing-partition bookkeeping")
+	// b1: web execQuery
+	if fn := c.need(rule, "(*z/web.handler).execQuery"); fn != nil {
+		sites := callsTo(fn, "(z/web.cacheEntry).succeed")
+		c.floor(rule, "cacheEntry.succeed call sites in execQuery", len(sites), 1)
+		for _, s := range sites {
+			guards := guardsOf(s.Block())
+			// every dominating error-producing call must be nil-tested
+			for _, call := range calls(fn) {
+				cv, ok := call.(*ssa.Call)
+				if !ok || !instrDominates(cv, s) {
+					continue
+				}
+				cn := calleeName(cv)
+				if hasPrefixAny(cn, "invoke (github.com/getlantern/golog", "fmt.", "(z/web.cacheEntry)") || !sigHasError(cv.Call.Signature()) {
+					continue
+				}
+				e, _ := errValueOf(cv)
+				inst := "execQuery: succeed after " + cn
+				if e == nil {
+					c.bad(rule, inst, cv.Pos(), "error of "+cn+" is dropped before the result is cached as a success")
+					continue
+				}
+				found := false
+				for _, g := range guards {
+					if x, nn, ok := nilTest(g); ok && !nn && sameValue(x, e) {
+						found = true
+					}
+				}
+				if !found {
+					// forwarded as an argument to a module function that is
+					// verified to return its error parameter (e.g. compress(json.Marshal(..)))
+					refs := liveReferrers(e)
+					fwd := len(refs) > 0
+					for _, r := range refs {
+						rc, ok := r.(*ssa.Call)
+						sc := (*ssa.Function)(nil)
+						if ok {
+							sc = rc.Call.StaticCallee()
+						}
+						if sc == nil || !inModule(sc) || !instrDominates(rc, s) {
+							fwd = false
+							break
+						}
+						okp := false
+						for ai, a := range rc.Call.Args {
+							if a == e && ai < len(sc.Params) && errflowFrom(c.P, sc.Params[ai], &errflowCfg{}, 0).ok {
+								okp = true
+							}
+						}
+						if !okp {
+							fwd = false
+						}
+					}
+					if fwd {
+						c.ok(rule, inst, s.Pos(), "error is forwarded to a module function verified to return it, whose own error is tested")
+						continue
+					}
+				}
+				c.check(rule, inst, s.Pos(), found, "succeed is dominated by the nil-test of this error", "cacheEntry.succeed is reachable without the error of "+cn+" having been tested nil: a failed/truncated query would be cached as a success")
+			}
+			// size cap
+			sz := false
+			for _, g := range guards {
+				b, ok := g.v.(*ssa.BinOp)
+				if !ok {
+					continue
+				}
+				xMax := isFieldLoad(b.X, "z/web.Opts.MaxResponseBytes")
+				yMax := isFieldLoad(b.Y, "z/web.Opts.MaxResponseBytes")
+				if !xMax && !yMax {
+					continue
+				}
+				op := b.Op
+				if xMax { // Max op len  -> len op' Max
+					switch op {
+					case token.LSS:
+						op = token.GTR
+					case token.LEQ:
+						op = token.GEQ
+					case token.GTR:
+						op = token.LSS
+					case token.GEQ:
+						op = token.LEQ
+					}
+				}
+				// within-limit holds on: (len > Max)=false, (len >= Max)=false, (len <= Max)=true, (len < Max)=true
+				if ((op == token.GTR || op == token.GEQ) && !g.pos) || ((op == token.LEQ || op == token.LSS) && g.pos) {
+					sz = true
+				}
+			}
+			c.check(rule, "execQuery: succeed under size cap", s.Pos(), sz, "succeed is dominated by the within-limit side of the MaxResponseBytes comparison", "cacheEntry.succeed is reachable without the response size having been tested against MaxResponseBytes")
+		}
+	}
+	// b2/b3: queryCluster
+	qc := c.need(rule, "(*z.DB).queryCluster")
+	if qc == nil {
+		return
+	}
+	// the closure that increments NumSuccessfulPartitions
+	var finishFn, failFn *ssa.Function
+	for _, f := range withAnon(qc)[1:] {
+		c.touch(f)
+		if len(fieldStores(f, "z/common.QueryStats.NumSuccessfulPartitions")) > 0 {
+			finishFn = f
+		}
+		for _, in := range instrs(f) {
+			if c13Cfg.sinkInstr(in) {
+				failFn = f
+			}
+		}
+	}
+	if finishFn == nil || failFn == nil {
+		c.undecided(rule, "queryCluster bookkeeping closures", qc.Pos(), "cannot find the closure that increments QueryStats.NumSuccessfulPartitions and/or the one that records missing partitions")
+		return
+	}
+	for _, st := range fieldStores(finishFn, "z/common.QueryStats.NumSuccessfulPartitions") {
+		ok := false
+		for _, g := range guardsOf(st.Block()) {
+			if x, nn, isNil := nilTest(g); isNil && !nn && isFieldLoad(x, "z.remoteResult.err") {
+				ok = true
+			}
+		}
+		c.check(rule, "queryCluster: NumSuccessfulPartitions++ under result.err == nil", st.Pos(), ok, "increment is dominated by result.err == nil", "NumSuccessfulPartitions is incremented without result.err having been tested nil: a failed partition would count as successful")
+	}
+	// b3: at the call of finishFn in queryCluster, on the path where result.err != nil, fail must have been called
+	fin := callsTo(qc, short(finishFn.String()))
+	c.floor(rule, "calls of the finish closure", len(fin), 1)
+	for _, fc := range fin {
+		// find a nil test on remoteResult.err whose non-nil edge leads to a fail call and which dominates fc
+		ok := false
+		for _, b := range qc.Blocks {
+			i := ifOf(b)
+			if i == nil || !b.Dominates(fc.Block()) {
+				continue
+			}
+			cv, pol := unNot(i.Cond, true)
+			x, nn, isNil := nilTest(atom{cv, pol})
+			if !isNil || !isFieldLoad(x, "z.remoteResult.err") {
+				continue
+			}
+			// non-nil successor
+			s := b.Succs[0]
+			if !nn {
+				s = b.Succs[1]
+			}
+			// every path from s to fc's block passes a call to failFn
+			var via []ssa.Instruction
+			for _, fcall := range callsTo(qc, short(failFn.String())) {
+				via = append(via, fcall)
+			}
+			avoid := blockSet{}
+			for _, v := range via {
+				avoid[v.Block()] = true
+			}
+			if avoid[s] || !reach([]*ssa.BasicBlock{s}, avoid, nil)[fc.Block()] {
+				ok = true
+			}
+		}
+		c.check(rule, "queryCluster: failed final result reaches missing-partition bookkeeping", fc.Pos(), ok, "on the result.err != nil side every path to finish() passes fail()", "a final partition result with err != nil can reach finish() without the partition being recorded as missing")
+	}
+	// b4: timeout case: range over the pending map, body always calls fail, and then returns
+	okT := false
+	var tpos = qc.Pos()
+	for _, b := range qc.Blocks {
+		if b.Comment != "rangeiter.loop" {
+			continue
+		}
+		body := b.Succs[0]
+		if bodyAlwaysCalls(body, b, short(failFn.String())) {
+			// the loop exit must reach a Return without re-entering the select loop
+			okT = true
+			tpos = b.Instrs[0].Pos()
+		}
+	}
+	c.check(rule, "queryCluster: partitions pending at timeout are recorded missing", tpos, okT, "the timeout case ranges over the pending partitions and calls fail() for each", "no loop over the pending partitions that records each as missing was found in the timeout path")
+}
+
+func bodyAlwaysCalls(body, header *ssa.BasicBlock, callee string) bool {
+	seen := map[*ssa.BasicBlock]bool{}
+	var walk func(b *ssa.BasicBlock) bool
+	walk = func(b *ssa.BasicBlock) bool {
+		if b == header {
+			return false
+		}
+		if seen[b] {
+			return true
+		}
+		seen[b] = true
+		for _, in := range b.Instrs {
+			if ci, ok := in.(ssa.CallInstruction); ok && isCall(ci, callee) {
+				return true
+			}
+			if _, ok := in.(*ssa.Return); ok {
+				return false
+			}
+		}
+		if len(b.Succs) == 0 {
+			return false
+		}
+		for _, s := range b.Succs {
+			if !walk(s) {
+				return false
+			}
+		}
+		return true
+	}
+	return walk(body)
 }
